@@ -336,6 +336,19 @@ static void do_cseq(std::vector<std::string> const& tk)
   printf("|");
   for (int d : deps)
     printf(" %d", d);
+  // final state: every request (actor rank comm src dst), then every mailbox (n, then is_send actor comm per entry)
+  printf(" #");
+  for (auto const& [a, v] : mine)
+    for (size_t k = 0; k < v.size(); k++)
+      printf(" %ld %zu %u %ld %ld", a, k, v[k]->get_id(), actors_index(v[k]->src_actor_.get()), actors_index(v[k]->dst_actor_.get()));
+  printf(" #");
+  for (auto* box : mb) {
+    printf(" %zu", box->comm_queue_.size());
+    for (auto const& q : box->comm_queue_) {
+      bool is_send = q->get_type() == act::CommImplType::SEND;
+      printf(" %d %ld %u", (int)is_send, actors_index(is_send ? q->src_actor_.get() : q->dst_actor_.get()), q->get_id());
+    }
+  }
   printf("\n");
   MC_record_path().clear();
 }
